@@ -2,7 +2,7 @@
 
 // Contracts for package validator, checked by /verif/govc (comment-only; compiled only with -tags verif).
 // Ghost state (declared by the verifier, see /verif/DESIGN.md): chanClosed, evOpen, evNext, evCur describe the
-// caller-supplied event channel; jsonTextValid is the assumed contract of encoding/json (spec/c04.smt2).
+// caller-supplied event channel; jsonTextValid / jsonOneDocument are the assumed contract of encoding/json (spec/c04.smt2).
 package validator
 
 //@ prelude c04 c18 c03 c09 c14 c11
@@ -51,6 +51,7 @@ package validator
 //@   requires [C11:compiled] receiver != nil ==> (chanClosed == 0 && !evOpen && evNext == 3)
 //@   ensures [C11:stages] receiver != nil ==> (chanClosed == old(chanClosed) && (result1 == nil ==> !evOpen && evNext == 5))
 //@   ensures [C04:decode] !jsonTextValid(jsonldText) ==> result1 != nil
+//@   ensures [C04:one-document] !jsonOneDocument(jsonldText) ==> result1 != nil
 //@   ensures-assumed [C18:lib-function] result0 == libNormalized(jsonldText) && result1 == libNormalizedErr(jsonldText) && stdout == old(stdout)
 
 //@ func executeValidation(eventChan *chan e.Event, err error, compiledRego rego.PreparedEvalQuery, normalizedInput any) (*rego.ResultSet, error)
@@ -72,7 +73,7 @@ package validator
 //@   ensures [C08:no-compile] opaRejected == old(opaRejected)
 //@   requires [C11:compiled] eventChan != nil ==> (chanClosed == 0 && !evOpen && evNext == 3)
 //@   ensures [C11:closed-once] eventChan != nil ==> chanClosed == old(chanClosed) + 1
-//@   ensures [C04:no-verdict] !jsonTextValid(jsonldText) ==> (result1 != nil && result0 == "")
+//@   ensures [C04:no-verdict] !jsonOneDocument(jsonldText) ==> (result1 != nil && result0 == "")
 //@   ensures-assumed [C09:function-of-inputs] compiledRegoPtr != nil ==> (result0 == libCompiledReport(deref(compiledRegoPtr), jsonldText, validationConfig, reportConfig) && result1 == libCompiledReportErr(deref(compiledRegoPtr), jsonldText, validationConfig, reportConfig))
 
 //@ func ValidateWithConfiguration(profileText string, jsonldText string, debug bool, eventChan *chan e.Event, validationConfig c.ValidationConfiguration, reportConfig c.ReportConfiguration) (string, error)
@@ -83,7 +84,7 @@ package validator
 //@   ensures [C08:nothing-evaluated] opaRejected ==> (result1 != nil && result0 == "" && !opaEvaluated)
 //@   requires [C11:fresh] eventChan != nil ==> (chanClosed == 0 && !evOpen && evNext == 0)
 //@   ensures [C11:closed-once] eventChan != nil ==> chanClosed == old(chanClosed) + 1
-//@   ensures [C04:no-verdict] !jsonTextValid(jsonldText) ==> (result1 != nil && result0 == "")
+//@   ensures [C04:no-verdict] !jsonOneDocument(jsonldText) ==> (result1 != nil && result0 == "")
 
 //@   ensures [C09:equivalent-to-precompiled] compileErr(profileText) == nil ==> (result0 == libCompiledReport(compiledQuery(profileText), jsonldText, validationConfig, reportConfig) && result1 == libCompiledReportErr(compiledQuery(profileText), jsonldText, validationConfig, reportConfig))
 //@   ensures [C09:compile-error-no-report] compileErr(profileText) != nil ==> (result1 != nil && result0 == "")
@@ -95,7 +96,7 @@ package validator
 //@   ensures [C08:nothing-evaluated] opaRejected ==> (result1 != nil && result0 == "" && !opaEvaluated)
 //@   requires [C11:fresh] eventChan != nil ==> (chanClosed == 0 && !evOpen && evNext == 0)
 //@   ensures [C11:closed-once] eventChan != nil ==> chanClosed == old(chanClosed) + 1
-//@   ensures [C04:no-verdict] !jsonTextValid(jsonldText) ==> (result1 != nil && result0 == "")
+//@   ensures [C04:no-verdict] !jsonOneDocument(jsonldText) ==> (result1 != nil && result0 == "")
 //@   ensures-assumed [C18:lib-function] result0 == libReport(profileText, jsonldText) && result1 == libReportErr(profileText, jsonldText) && stdout == old(stdout)
 
 //@ func ValidateCompiled(compiledRegoPtr *rego.PreparedEvalQuery, jsonldText string, debug bool, eventChan *chan e.Event) (string, error)
@@ -104,7 +105,7 @@ package validator
 //@   ensures [C04:jsonld-rejected-no-verdict] ldRejected ==> (result1 != nil && result0 == "")
 //@   requires [C11:compiled] eventChan != nil ==> (chanClosed == 0 && !evOpen && evNext == 3)
 //@   ensures [C11:closed-once] eventChan != nil ==> chanClosed == old(chanClosed) + 1
-//@   ensures [C04:no-verdict] !jsonTextValid(jsonldText) ==> (result1 != nil && result0 == "")
+//@   ensures [C04:no-verdict] !jsonOneDocument(jsonldText) ==> (result1 != nil && result0 == "")
 
 //@ func Encode(data any) string
 //@   ensures-assumed [C18:lib-function] result == libEncode(data)
